@@ -52,7 +52,9 @@ def execute_threaded(build, prefix, threads, eager=False, salt=1):
     _arm_watchdog()
     try:
         with Patches(sched):
-            if threads.get("mode", "loop-main") == "loop-main":
+            mode = getattr(build, "program", {}).get("threads_mode") or threads.get("mode",
+                                                                                   "loop-main")
+            if mode == "loop-main":
                 sched.adopt_current("loop")
                 main = build(world)
                 try:
